@@ -2,6 +2,7 @@ package value
 
 import (
 	"fmt"
+	"sort"
 
 	"github.com/smarthome-go/homescript/v3/homescript/analyzer/ast"
 	"github.com/smarthome-go/homescript/v3/homescript/errors"
@@ -152,7 +153,16 @@ func deepCast(val Value, typ ast.Type, span errors.Span, allowCasts bool) (*Valu
 
 			outputFields := make(map[string]*Value)
 
-			for key, field := range objVal.FieldsInternal {
+			// Check the fields in a fixed (sorted) order: which of several offending fields is reported
+			// must not depend on the iteration order of the map.
+			keys := make([]string, 0, len(objVal.FieldsInternal))
+			for key := range objVal.FieldsInternal {
+				keys = append(keys, key)
+			}
+			sort.Strings(keys)
+
+			for _, key := range keys {
+				field := objVal.FieldsInternal[key]
 				found := false
 				for _, otherField := range objType.ObjFields {
 					if key == otherField.FieldName.Ident() {
